@@ -42,6 +42,8 @@ type world struct {
 	outsiderPk  [][48]byte
 	oracle      *blsOracle
 	p0A, p0B    uint64
+	p0C         uint64 // the period before a fork boundary in the past of now0 (histories that start here cross it)
+	forkSlot    uint64 // first slot of that fork
 }
 
 func randScalar(rng *rand.Rand) *big.Int {
@@ -134,7 +136,14 @@ func newWorld(rngFor func(stream string, idx int) *rand.Rand) (*world, error) {
 		}
 	}
 	w.forkVersion = [4]byte(fv)
-	w.oracle.forkVersion = w.forkVersion
+	// The signing domain uses the fork version of the signature slot, as the spec function of the configuration
+	// yields it (zrnt, a dependency). Histories that start at p0C cross a fork boundary, where it changes.
+	w.oracle.forkVersionAt = w.fvAt
+	w.forkSlot = uint64(w.spec.DENEB_FORK_EPOCH) * 32
+	if w.forkSlot%slotsPerPeriod != 0 || w.forkSlot >= w.p0A*slotsPerPeriod || w.spec.ForkVersion(common.Slot(w.forkSlot-1)) == w.spec.ForkVersion(common.Slot(w.forkSlot)) {
+		return nil, fmt.Errorf("no usable fork boundary below the slot range used (slot %d)", w.forkSlot)
+	}
+	w.p0C = w.forkSlot/slotsPerPeriod - 1
 
 	for k := 0; k < 4; k++ {
 		dupes := 0
@@ -163,6 +172,8 @@ func newWorld(rngFor func(stream string, idx int) *rand.Rand) (*world, error) {
 	}
 	return w, nil
 }
+
+func (w *world) fvAt(slot uint64) [4]byte { return [4]byte(w.spec.ForkVersion(common.Slot(slot))) }
 
 // ---------------------------------------------------------------------------
 // sparse state tree
